@@ -41,12 +41,14 @@ def generate(seed_: int, run: int, reactions: list[str]) -> dict:
         r = rng.random()
         slot = rng.randrange(64)
         if r < 0.6:
-            kind = rng.choices(["fresh", "swap", "chain", "merge", "kinvar", "unknown", "empty"],
-                               weights=[6, 3, 3, 3, 3, 1, 1])[0]
+            kind = rng.choices(["fresh", "swap", "chain", "merge", "kinvar", "unknown", "empty", "bound", "collide"],
+                               weights=[6, 3, 3, 3, 3, 1, 1, 2, 2])[0]
             op = {"op": "rename", "slot": slot, "kind": kind,
                   "picks": [rng.randrange(500) for _ in range(rng.choice([1, 2, 2, 3, 6]))]}
             if kind == "fresh" and rng.random() < 0.3:
                 op["any"] = True
+            if kind == "bound" and rng.random() < 0.4:
+                op["onto_bound"] = True
             ops.append(op)
         elif r < 0.85:
             ops.append({"op": "set", "slot": slot, "pick": rng.randrange(500),
